@@ -1050,10 +1050,10 @@ def s_write_int(ex, st, call):
     w = deref(call.args[0])
     kind = call.c0.rsplit('_', 1)[-1]
     if isinstance(w, Obj) and base_name(w.ty) in ('Vec', '') and w.kind in ('bytes', 'seq', 'opaque'):
-        buf_segs(w).append((kind + ('le' if kind != 'u8' else ''), call.args[1]))
+        buf_segs(w).append((kind + (endian_of(call) if kind not in ('u8', 'i8') else ''), call.args[1]))
         w.kind = 'bytes'
         return ex.mk_enum(call.dst_ty, 'Ok', [ex.unit()])
-    return io_event(ex, st, call, 'W_INT', w, {'kind': kind, 'val': call.args[1]})
+    return io_event(ex, st, call, 'W_INT', w, {'kind': kind + (endian_of(call) if kind not in ('u8', 'i8') else ''), 'val': call.args[1]})
 
 
 @rule(r'^<Vec<u8> as (std::io::)?Write>::write_all$', r'^<(W|&mut W|&mut Vec<u8>) as (std::io::)?Write>::write_all$')
